@@ -27,7 +27,7 @@ EXPLANATION = (
     "request that carries a multiplexer stores it from that request before anything that can abort; R4 exception to "
     "abort translation in on_request (specific before general, code passed unchanged, KeyError -> 0x06020000, default "
     "0x08000000); R5 the client decodes an abort as '<L' at offset 4 and raises SdoAbortedError(code) before returning; "
-    "R6 data_store has a single writer. R8 no class-level mutable object is mutated in place by instances (each node/client/map/dictionary has its own state)."
+    "R6 data_store has a single writer. R9 implicit array members inherit the access type of sub-index 1 (shared with C08.R11); R10 every set_data call in a handler reachable from on_request passes check_writable=True and no handler goes through the unchecked local download()/upload() helpers; R8 no class-level mutable object is mutated in place by instances (each node/client/map/dictionary has its own state)."
 )
 ASSUMPTIONS = [
     "not decided: random object dictionaries and request histories; write callbacks are opaque",
@@ -205,39 +205,7 @@ def run(chk):
         chk.check(not late, "R2", f"{LN}:LocalNode.get_data | access refusal before read callbacks", gd.loc(e.ast), "write-only refusal after the callbacks ran")
 
     # ------------------------------------------------------------------ R3 abort frame + multiplexer provenance
-    packs = [c for c in find_calls(ab.node, "struct.pack")]
-    chk.floor("R3", len(packs), 1, "struct.pack in SdoServer.abort")
-    for c in packs:
-        fmt = folder.try_fold(c.args[0], Scope(ab.mod), None)
-        rest = [src(a) for a in c.args[1:]]
-        v0 = folder.try_fold(c.args[1], Scope(ab.mod, ab.cls), None) if len(c.args) > 1 else None
-        chk.check(fmt == "<BHBL" and v0 == 0x80 and rest[1:] == ["self._index", "self._subindex", "abort_code"], "R3", f"{SV}:SdoServer.abort | frame", ab.loc(c),
-                  f"abort frame is struct.pack({fmt!r}, {', '.join(rest)}); CiA 301: '<BHBL' (0x80, index, subindex, code)")
-    fab = ff_for(chk, ab, "C06.R3")
-    wit = must_pass(fab.cfg, lambda n: node_calls(n, "self.send_response"))
-    chk.check(wit is None, "R3", f"{SV}:SdoServer.abort | frame is sent", ab.loc(), f"{path_text(wit) if wit else ''}")
-    for fname in ("init_upload", "init_download", "block_download"):
-        f = repo.func(SV, f"SdoServer.{fname}", "C06.R3")
-        ff = ff_for(chk, f, "C06.R3")
-        req = f.params[1]
-        risky = [n for n in ff.cfg.nodes if n.kind in ("stmt", "test") and (
-            node_calls(n, "self.abort") or any(isinstance(c, ast.Call) and (dotted(c.func) or "").startswith("self._node.") for c in ast.walk(n.ast))
-            or isinstance(n.ast, ast.Raise))]
-        chk.floor("R3", len(risky), 1, f"statements that can abort in {fname}")
-        for attr, pos in (("_index", 1), ("_subindex", 2)):
-            stores = [n for n in ff.cfg.nodes if n.kind == "stmt" and isinstance(n.ast, ast.Assign) and any(
-                dotted(t) == f"self.{attr}" or (isinstance(t, ast.Tuple) and any(dotted(e) == f"self.{attr}" for e in t.elts)) for t in n.ast.targets)]
-            for r in risky:
-                wit = must_pass(ff.cfg, lambda n: n in stores, to_nodes=[r])
-                chk.check(wit is None, "R3", f"{SV}:SdoServer.{fname} | {attr} set before `{src(r.ast)[:40]}`", f.loc(r.ast),
-                          f"this statement can abort while self.{attr} still holds the multiplexer of an earlier transfer: {path_text(wit) if wit else ''}")
-            for s_ in stores:
-                ok = _from_request(ff, s_.ast, attr, pos, req)
-                chk.check(ok, "R3", f"{SV}:SdoServer.{fname} | {attr} taken from this request", f.loc(s_.ast), f"`{src(s_.ast)}` is not field {pos} of SDO_STRUCT.unpack_from({req})")
-    bu = repo.func(SV, "SdoServer.block_upload", "C06.R3")
-    chk.saw(bu)
-    chk.check(any(dotted(c.func) == "self.init_upload" and [src(a) for a in c.args] == [bu.params[1]] for c in ast.walk(bu.node) if isinstance(c, ast.Call)),
-              "R3", f"{SV}:SdoServer.block_upload | delegates to init_upload", bu.loc(), "block upload is not served through init_upload(data)")
+    abort_frame_and_multiplexer(chk, "R3")
 
     # ------------------------------------------------------------------ R5 client decoding
     rd = repo.func(CL, "SdoClient.read_response", "C06.R5")
@@ -283,9 +251,82 @@ def run(chk):
                           "data_store is written outside LocalNode.set_data: a refused write could change the stored value")
     chk.floor("R6", n_w, 2, "writers of data_store")
 
+    # ------------------------------------------------------------------ R10 every store made on behalf of a remote request asks for the access check
+    srv = repo.cls(SV, "SdoServer", "C06.R10")
+    onr = repo.func(SV, "SdoServer.on_request", "C06.R10")
+    handlers, todo = set(), [onr]
+    while todo:
+        fcur = todo.pop()
+        for c in ast.walk(fcur.node):
+            if isinstance(c, ast.Call) and isinstance(c.func, ast.Attribute) and dotted(c.func.value) == "self" and c.func.attr in srv.methods and c.func.attr not in handlers \
+                    and c.func.attr not in ("abort", "send_response"):
+                handlers.add(c.func.attr)
+                todo.append(srv.methods[c.func.attr])
+    chk.floor("R10", len(handlers), 5, "request handlers reachable from on_request")
+    n_store = 0
+    for hn in sorted(handlers):
+        hf = srv.methods[hn]
+        chk.saw(hf)
+        for c in ast.walk(hf.node):
+            if not isinstance(c, ast.Call):
+                continue
+            d = dotted(c.func) or ""
+            if d == "self._node.set_data":
+                n_store += 1
+                kw = {k.arg: folder.try_fold(k.value, Scope(hf.mod), None) for k in c.keywords}
+                pos = folder.try_fold(c.args[3], Scope(hf.mod), None) if len(c.args) > 3 else None
+                chk.check(kw.get("check_writable") is True or pos is True, "R10", f"{SV}:SdoServer.{hn} | remote write checked against the access type", hf.loc(c),
+                          f"`{src(c)[:80]}` stores without check_writable=True: a read-only or constant entry is overwritten instead of answered with 0x06010002")
+            elif d in ("self.download", "self.upload") and hn not in ("download", "upload"):
+                chk.bad("R10", f"{SV}:SdoServer.{hn} | remote request served through the local application helper", hf.loc(c),
+                        f"`{src(c)[:80]}`: SdoServer.{d[5:]}() is the local application's accessor and skips the access check (check_writable/check_readable default to False)")
+    chk.floor("R10", n_store, 2, "set_data calls in the request handlers")
+    # ------------------------------------------------------------------ R9 implicit array members inherit the access type (shared with C08.R11)
+    from . import c08 as _c08
+    _c08.implicit_members(chk, "R9")
     # ------------------------------------------------------------------ R8 instances are independent (shared clause)
     from . import shared as _shared
     _shared.isolation(chk, "R8", rels=['canopen/sdo/server.py', 'canopen/sdo/base.py', 'canopen/node/local.py', 'canopen/objectdictionary/__init__.py'])
+
+
+def abort_frame_and_multiplexer(chk, rule: str = "R3"):
+    """The server's abort frame is '<BHBL' (0x80, index, subindex, code) and every handler that can abort has recorded the
+    multiplexer of *this* request before (shared with C02: every response echoes the addressed multiplexer)."""
+    repo, folder = ctx(chk)
+    ab = repo.func(SV, "SdoServer.abort", f"{chk.prop}.{rule}")
+    packs = [c for c in find_calls(ab.node, "struct.pack")]
+    chk.floor(rule, len(packs), 1, "struct.pack in SdoServer.abort")
+    for c in packs:
+        fmt = folder.try_fold(c.args[0], Scope(ab.mod), None)
+        rest = [src(a) for a in c.args[1:]]
+        v0 = folder.try_fold(c.args[1], Scope(ab.mod, ab.cls), None) if len(c.args) > 1 else None
+        chk.check(fmt == "<BHBL" and v0 == 0x80 and rest[1:] == ["self._index", "self._subindex", "abort_code"], rule, f"{SV}:SdoServer.abort | frame", ab.loc(c),
+                  f"abort frame is struct.pack({fmt!r}, {', '.join(rest)}); CiA 301: '<BHBL' (0x80, index, subindex, code)")
+    fab = ff_for(chk, ab, f"{chk.prop}.{rule}")
+    wit = must_pass(fab.cfg, lambda n: node_calls(n, "self.send_response"))
+    chk.check(wit is None, rule, f"{SV}:SdoServer.abort | frame is sent", ab.loc(), f"{path_text(wit) if wit else ''}")
+    for fname in ("init_upload", "init_download", "block_download"):
+        f = repo.func(SV, f"SdoServer.{fname}", f"{chk.prop}.{rule}")
+        ff = ff_for(chk, f, f"{chk.prop}.{rule}")
+        req = f.params[1]
+        risky = [n for n in ff.cfg.nodes if n.kind in ("stmt", "test") and (
+            node_calls(n, "self.abort") or any(isinstance(c, ast.Call) and (dotted(c.func) or "").startswith("self._node.") for c in ast.walk(n.ast))
+            or isinstance(n.ast, ast.Raise))]
+        chk.floor(rule, len(risky), 1, f"statements that can abort in {fname}")
+        for attr, pos in (("_index", 1), ("_subindex", 2)):
+            stores = [n for n in ff.cfg.nodes if n.kind == "stmt" and isinstance(n.ast, ast.Assign) and any(
+                dotted(t) == f"self.{attr}" or (isinstance(t, ast.Tuple) and any(dotted(e) == f"self.{attr}" for e in t.elts)) for t in n.ast.targets)]
+            for r in risky:
+                wit = must_pass(ff.cfg, lambda n: n in stores, to_nodes=[r])
+                chk.check(wit is None, rule, f"{SV}:SdoServer.{fname} | {attr} set before `{src(r.ast)[:40]}`", f.loc(r.ast),
+                          f"this statement can abort while self.{attr} still holds the multiplexer of an earlier transfer: {path_text(wit) if wit else ''}")
+            for s_ in stores:
+                ok = _from_request(ff, s_.ast, attr, pos, req)
+                chk.check(ok, rule, f"{SV}:SdoServer.{fname} | {attr} taken from this request", f.loc(s_.ast), f"`{src(s_.ast)}` is not field {pos} of SDO_STRUCT.unpack_from({req})")
+    bu = repo.func(SV, "SdoServer.block_upload", f"{chk.prop}.{rule}")
+    chk.saw(bu)
+    chk.check(any(dotted(c.func) == "self.init_upload" and [src(a) for a in c.args] == [bu.params[1]] for c in ast.walk(bu.node) if isinstance(c, ast.Call)),
+              rule, f"{SV}:SdoServer.block_upload | delegates to init_upload", bu.loc(), "block upload is not served through init_upload(data)")
 
 
 def _immediate_guard(fn, node):
